@@ -17,6 +17,8 @@ R07g cached path typestate (Dubins, Reeds-Shepp): on every path through interpol
 from engine import facts, sym, paths
 from engine.facts import AnalysisBroken
 from engine.sym import Poly, Unsupported
+from engine.shape import key, args
+from rules.planners import nofp
 from rules import c06
 from rules.c06 import B, UNITS, definer
 
@@ -415,6 +417,66 @@ def r07g(rep, F):
     rep.require_count('R07g', 'cached-path instances', n, 2)
 
 
+def r07h(rep, F):
+    rep.rule('R07h', 'scratch states guard the right input: where interpolate selects its scratch as S = (G == state) ? allocState() : state '
+                     '(so that writing S does not clobber an input that aliases the output), every input-state parameter that is still '
+                     'read -- passed to a call -- after the first call that writes S is G itself, and the matching freeState(S) is guarded '
+                     'by the same comparison.  Guarding the other input leaves `from` overwritten when state == from')
+    n = 0
+    for f in F.functions:
+        if not f.body or not f.name.endswith('::interpolate') or '/spaces/' not in f.file:
+            continue
+        sparams = {'%s#%d' % (p['name'], p['did']) for p in f.params if 'State' in (p.get('ty') or '') and (p.get('ty') or '').startswith('const')}
+        outp = [p for p in f.params if 'State' in (p.get('ty') or '') and not (p.get('ty') or '').startswith('const') and '*' in (p.get('ty') or '')]
+        if not outp:
+            continue
+        okey = '%s#%d' % (outp[-1]['name'], outp[-1]['did'])
+        for ds in [x for x in f.walk() if x['k'] == 'DeclStmt']:
+            for d in ds.get('decls', []):
+                ini = f.strip(d['init']) if d.get('init') else None
+                if ini is None or ini['k'] != 'ConditionalOperator':
+                    continue
+                cond = f.strip(ini['ch'][0])
+                alt = [f.strip(ini['ch'][1]), f.strip(ini['ch'][2])]
+                if cond is None or cond['k'] != 'BinaryOperator' or cond.get('op') != '==' or not any(
+                        a is not None and (a.get('callee') or '').endswith('::allocState') for a in alt):
+                    continue
+                ks = [key(f, cond['ch'][0]), key(f, cond['ch'][1])]
+                if okey not in ks:
+                    continue
+                G = [k for k in ks if k != okey][0]
+                skey = '%s#%d' % (d['name'], d['did'])
+                n += 1
+                # scope of S: the enclosing compound statement
+                scope = next((a for a in f.ancestors(ds['id']) if a['k'] == 'CompoundStmt'), None)
+                calls = [c for c in f.walk(scope['id']) if c.get('callee') and f.line(c) >= f.line(ds) and c['id'] not in {z['id'] for z in f.walk(ds['id'])}]
+                w = next((c for c in sorted(calls, key=lambda c: (f.line(c), c['id'])) if any(key(f, a) == skey for a in args(f, c))), None)
+                if w is None:
+                    rep.add('R07h', f.name, 'scratch-guard[%s]' % d['name'], False, f.where(ds), 'the scratch state is never written')
+                    continue
+                later = set()
+                for c in calls:
+                    if f.line(c) > f.line(w):
+                        for a in args(f, c):
+                            if key(f, a) in sparams:
+                                later.add(key(f, a))
+                frees = [c for c in calls if (c.get('callee') or '').endswith('::freeState') and any(key(f, a) == skey for a in args(f, c))]
+                fguard = True
+                for c in frees:
+                    g = next((a for a in f.ancestors(c['id']) if a['k'] == 'IfStmt'), None)
+                    gk = {key(f, z['id']) for z in f.walk(g['cond']) if z['k'] == 'DeclRefExpr'} if g else set()
+                    fguard = fguard and gk == {G, okey}
+                bad = later - {G}
+                ok = not bad and fguard and bool(frees)
+                rep.add('R07h', f.name, 'scratch-guard[%s]' % d['name'], ok, f.where(ds),
+                        'scratch used when %s aliases the output; inputs read after it is written: %s' % (nofp(G), sorted(nofp(x) for x in later) or 'none')
+                        if ok else ('the scratch state is chosen by comparing the output with %s, but %s is read after the scratch (possibly the '
+                                    'output itself) has been written: with state == %s that input is overwritten first' % (
+                                        nofp(G), ', '.join(sorted(nofp(x) for x in bad)), sorted(nofp(x) for x in bad)[0]) if bad else
+                                    'the freeState of the scratch is not guarded by the comparison that allocated it'))
+    rep.require_count('R07h', 'scratch selections in interpolate', n, 3)
+
+
 def run(rep):
     F = facts.load_units(UNITS)
     rep.units.update(UNITS)
@@ -424,6 +486,7 @@ def run(rep):
     r07d(rep, F)
     r07e(rep, F)
     r07g(rep, F)
+    r07h(rep, F)
     for rec in ('MobiusStateSpace', 'KleinBottleStateSpace'):
         rep.undecided('R07b', B + rec + '::interpolate', 'alias', 'reads the output state after a component interpolation wrote it; '
                       'outside the normalisable fragment')
